@@ -273,15 +273,15 @@ Definition mg_ref1 (g : graph) (x : trip) : bool :=
       if pending g s || pending g t then (o2m_cov g true s c t && N.eqb (role_of g t) 1) || m2o_cov g true s c t else true
     else if pending g t && negb (N.eqb s t) then o2m_cov g false s c t || m2o_cov g false s c t else true
   else true.
-(* the two regions excluded here are the two defects found (see the _refuted theorems) *)
+(* excluded here: a post_update column whose target row is deleted while the holder survives (defect, see
+   the _refuted theorem); and - through [m2o_cov], which needs the get_all_pending link - a many-to-one whose
+   OLD target was not loaded when the attribute was reset *)
 Definition mg_ref0 (g : graph) (cy : list N) (x : trip) : bool :=
   let s := fst (fst x) in let c := snd (fst x) in let t := snd x in
   if N.eqb (role_of g t) 2 && negb (N.eqb s t) then
     if postcol g c then N.eqb (role_of g s) 2 && (o2m_cov g true s c t || m2o_cov g true s c t)
     else if N.eqb (role_of g s) 2 then o2m_cov g false s c t || m2o_cov g false s c t
-    else N.eqb (role_of g s) 1 &&
-         (o2m_cov g false s c t ||
-          (m2o_cov g false s c t && (negb (incyc cy (SaveAll (map_of g s))) || N.eqb (map_of g s) (map_of g t))))
+    else N.eqb (role_of g s) 1 && (o2m_cov g false s c t || m2o_cov g false s c t)
   else true.
 Definition mg_postdel (g : graph) (s : N) : bool :=
   if N.eqb (role_of g s) 2 && has_post g s then
